@@ -3,7 +3,7 @@ From Coq Require Import String.
 From Boltons Require Import Lib.Prelude Lib.C07_Str Spec.C07_Spec Gen.C07_Gen Model.C07_Model
      Proofs.C07_StrLemmas Proofs.C07_Rds Proofs.C07_Resolve Proofs.C07_Parse Proofs.C07_Navigate
      Proofs.C07_Text Proofs.C07_RfcExamples Gen.C07_Src Proofs.C07_SrcEq Check.C07_Check
-     Proofs.C07_Refine Proofs.C07_RoundTrip Proofs.C07_Unrooted.
+     Proofs.C07_Refine Proofs.C07_RoundTrip Proofs.C07_Unrooted Proofs.C07_Case.
 Open Scope N_scope.
 Open Scope list_scope.
 
@@ -111,6 +111,21 @@ Proof.
   split; [exact ex_base_wf|]. split; [exact ex_ref1_wf|]. split; [exact ex_abs_wf|].
   vm_compute. repeat split; reflexivity.
 Qed.
+
+(* mixed-case scheme / host in the base (navigate lower-cases them, RFC 3986 6.2.2.1; the 5.2
+   algorithm copies them): the result is that of the lower-cased twin, and it is the RFC target
+   of the texts up to the case of scheme and host *)
+Theorem C07_navigate_mixed_case : forall b d, wf_base_mc b -> wf_ref d ->
+  spec_navigate (to_text b) (to_text d) (to_text (navigate_url b d)) = true.
+Proof. exact navigate_mixed_case. Qed.
+Print Assumptions C07_navigate_mixed_case.
+Theorem C07_navigate_case_twin : forall b d, navigate_url b d = navigate_url (lc b) d.
+Proof. exact navigate_mixed_case_twin. Qed.
+Print Assumptions C07_navigate_case_twin.
+Example C07_navigate_mixed_case_ex :
+  wf_base_mc ex_mixed /\ u_scheme ex_mixed = codes "HTTP" /\
+  to_text (navigate_url ex_mixed ex_ref1) = codes "http://U:p@example.com:8080/g//?y=2#s".
+Proof. exact ex_mixed_ok. Qed.
 
 (* bases whose path_parts lack the leading '' (URL.from_parts(host=..., path_parts=('post', '123')),
    the usage its documentation shows): rendered like, and navigated exactly like, the rooted URL
